@@ -120,6 +120,25 @@ func (w *FaultWriter) Write(p []byte) (int, error) {
 	return len(p), nil
 }
 
+// CapWriter is a FaultWriter that also offers the optional fast-path
+// interfaces destinations commonly have (io.ByteWriter, io.StringWriter): code
+// that type-switches on them takes another path, with the same faults.
+type CapWriter struct {
+	*FaultWriter
+	ByteCalls, StringCalls int
+}
+
+func (w *CapWriter) WriteByte(c byte) error {
+	w.ByteCalls++
+	_, err := w.FaultWriter.Write([]byte{c})
+	return err
+}
+
+func (w *CapWriter) WriteString(s string) (int, error) {
+	w.StringCalls++
+	return w.FaultWriter.Write([]byte(s))
+}
+
 // Conn adapts a reader and a writer to net.Conn (for RCONConn).
 type Conn struct {
 	R io.Reader
